@@ -7,7 +7,18 @@ use std::collections::{BTreeMap, BTreeSet};
 use std::path::{Path, PathBuf};
 use std::time::Instant;
 
-pub const VERIF_ROOT: &str = "/verif";
+/// Root of the verification tree: $VERIF_ROOT (set by ./check to the directory it lives in,
+/// so that a snapshot of /verif is self-contained), default /verif.
+pub fn verif_root() -> PathBuf {
+    PathBuf::from(std::env::var("VERIF_ROOT").unwrap_or_else(|_| "/verif".to_string()))
+}
+/// The generated workspace the runner belongs to ($VERIF_WORK, default <root>/work).
+pub fn work_dir() -> PathBuf {
+    match std::env::var("VERIF_WORK") {
+        Ok(w) => PathBuf::from(w),
+        Err(_) => verif_root().join("work"),
+    }
+}
 
 #[derive(Clone, Copy, Debug, PartialEq, Eq)]
 pub enum Tier {
@@ -118,7 +129,7 @@ impl Finding {
 }
 
 pub fn load_findings() -> Vec<Finding> {
-    let p = Path::new(VERIF_ROOT).join("known_findings.json");
+    let p = verif_root().join("known_findings.json");
     let txt = match std::fs::read_to_string(&p) {
         Ok(t) => t,
         Err(_) => return vec![],
@@ -247,7 +258,7 @@ impl Evidence {
         *self.known.entry(id.to_string()).or_insert(0) += 1;
     }
     pub fn write(&self) -> PathBuf {
-        let dir = Path::new(VERIF_ROOT).join("evidence");
+        let dir = verif_root().join("evidence");
         let _ = std::fs::create_dir_all(&dir);
         let path = dir.join(format!("{}.json", self.property));
         let mut cov = Map::new();
@@ -290,7 +301,7 @@ impl Evidence {
 
 /// Write a replay file and print the VIOLATION line.  Returns the path.
 pub fn report_violation(property: &str, replay: &Value) -> PathBuf {
-    let dir = Path::new(VERIF_ROOT).join("work").join("replay");
+    let dir = verif_root().join("work").join("replay");
     let _ = std::fs::create_dir_all(&dir);
     let txt = serde_json::to_string_pretty(replay).unwrap();
     let h = fnv(txt.as_bytes());
